@@ -96,7 +96,9 @@ Record oop := { o_key : key; o_val : option value; o_valid : bool; o_fwd : fwd; 
 (* c_graph = false: the trace was taken at the ARC's callbacks (o_evs in emission order, including match events);
    c_graph = true : the trace was taken at the END of the whole calculation graph: o_evs are the
                     proto.ActiveProfileUpdate / ActiveProfileRemove messages the EventSequencer flushed after the update *)
-Record case := { c_graph : bool; c_ops : list oop }.
+(* c_sizes: the sizes of the OnUpdates batches in which c_ops were delivered to the real ValidationFilter (the sink
+   behind the filter attributes forwarded values and emitted events to the single updates, so c_ops stays flat) *)
+Record case := { c_graph : bool; c_sizes : list nat; c_ops : list oop }.
 
 (* short constructor names used by the generated case files *)
 Definition R := Build_crule.
@@ -175,8 +177,32 @@ Fixpoint agree_g (s : st) (vm vi : view) (ops : list oop) : bool :=
       && view_eqb (v_profs vm') (v_profs vi') && agree_g s' vm' vi' ops'
   end.
 
+(* batch-wise comparison: the model's filter maps over the batch (with the case's validity verdicts), the ARC
+   consumes the forwarded batch *)
+Fixpoint take_batches {A} (sizes : list nat) (l : list A) : list (list A) :=
+  match sizes with
+  | [] => match l with [] => [] | _ => [l] end
+  | n :: ss => firstn n l :: take_batches ss (skipn n l)
+  end.
+
+Definition filter_batch_obs (b : list oop) : list input :=
+  map (fun o => {| i_key := o_key o; i_val := filtered o; i_sched := sched_of (o_evs o); i_ord := ord_of (o_evs o) |}) b.
+
+Fixpoint agree_batches (s : st) (bs : list (list oop)) : bool :=
+  match bs with
+  | [] => true
+  | b :: bs' =>
+      let '(s', evss) := arc_batch s (filter_batch_obs b) in
+      forallb ok_filter b && list_eqb (list_eqb ev_eqb) evss (map o_evs b) && agree_batches s' bs'
+  end.
+
+Definition sizes_ok (c : case) : bool := Nat.eqb (fold_right Nat.add 0%nat (c_sizes c)) (length (c_ops c)).
+
 Definition check_case (c : case) : bool * bool :=
-  (if c_graph c then agree_g st0 view0 view0 (c_ops c) else agree st0 (c_ops c), ok_case c).
+  (sizes_ok c &&
+   (if c_graph c then agree_g st0 view0 view0 (c_ops c)
+    else agree st0 (c_ops c) && agree_batches st0 (take_batches (c_sizes c) (c_ops c))),
+   ok_case c).
 
 (* ------------------------------------------------------------------ history-level reference objects (theorems) *)
 
